@@ -645,14 +645,32 @@ def run_reduce(ctx, n: int, styles=("static", "symbolic", "none"), label="reduce
             except Exception as e:
                 continue       # onnxruntime refuses (e.g. min/max over an empty extent): not an admissible input
             eval_lines.append(f"tg_evald {_tok(shp)}:{_ints(data.astype(object).reshape(-1).tolist() if npd != np.bool_ else data.astype(int).reshape(-1).tolist())} {got}")
-            eval_meta.append((line, shp, res))
+            eval_meta.append((line, shp, res, c, data))
     ans = common.model(eval_lines)
     agree = 0
-    for a, (line, shp, res) in zip(ans, eval_meta):
+    for a, (line, shp, res, c, data) in zip(ans, eval_meta):
         vals = res.astype(int).reshape(-1).tolist() if res.dtype == np.bool_ else [int(v) for v in res.reshape(-1).tolist()]
         exp = f"ok {_tok(res.shape)} {_ints(vals)}"
         if a != exp:
-            ctx.corr_broken("tgraph-eval-vs-onnxruntime/reduce", {"call": line, "shape": list(shp), "lean": a[:300], "onnxruntime": exp[:300]})
+            # the Lean reading of the operators and onnxruntime differ: which of them disagrees with NumPy?
+            nkw = {"axis": c["axis"], "keepdims": c["keepdims"]}
+            if c["acc"]:
+                nkw["dtype"] = np.dtype(c["acc"])
+            try:
+                with np.errstate(all="ignore"):
+                    ref = NP_REDUCE[c["fn"]](data, **nkw)
+                if c["fn"] in ("sum", "prod") and not c["acc"] and data.dtype.kind == "u":
+                    ref = np.asarray(ref).astype(np.uint64 if c["fn"] == "sum" else np.uint32)
+                ort_ok = np.shape(ref) == res.shape and np.array_equal(np.asarray(ref), res)
+            except Exception:
+                ort_ok = True
+            if ort_ok:
+                ctx.corr_broken("tgraph-eval-vs-onnxruntime/reduce", {"call": line, "shape": list(shp), "lean": a[:300], "onnxruntime": exp[:300]})
+            else:
+                big = data.dtype != np.bool_ and data.size and int(np.abs(data.astype(object)).max()) >= 2 ** 31
+                ctx.violation(f"{c['fn']}/{c['acc'] or c['dtype']}/{'large-magnitudes' if big else 'ordinary'}/exported-model-differs-from-numpy",
+                              f"{line} on {data.tolist()}: exported model gives {res.tolist()}, NumPy {np.asarray(ref).tolist()} (Lean evaluation of the exported graph: {a[:120]})",
+                              {"call": line, "data": data.tolist(), "observed": res.tolist(), "expected": np.asarray(ref).tolist()})
         else:
             agree += 1
     ctx.count(f"tgraph-{label}-terms-matched", matched)
